@@ -320,6 +320,8 @@ def _done(res, ses, counters, spec):
     res.setdefault("nontrivial", res["verdict"] == "violation")
     counters.update(ses.totals)
     res["counters"] = counters
+    res["interleavings"] = sorted(ses.order_digests)
+    res["policies"] = ses.policies
     res["probes"] = {"benign_aliases": counters["benign_aliases"]}
     res["case_digest"] = R.digest({"recipe": spec["recipe"], "siblings": [s["what"] for s in spec.get("siblings", [])]})
     return res
